@@ -153,3 +153,23 @@ Proof.
   - apply BS_normal. simpl. left. reflexivity.
   - apply BS_normal. simpl. left. reflexivity.
 Qed.
+
+(* Total correctness of the exit-call attribution on CPython 3.9 / 3.10, for certified code
+   ([check_bcert] now also demands that a reachable POP_BLOCK has a block to pop): whenever the
+   frame rests behind the POP_BLOCK of an inlined exit call that SOME execution reaches with block
+   stack st, the model of currently_exiting_context answers — no InspectionWarning, no exception,
+   no fuel exhaustion — "exiting, handler h" with h the innermost block of st, i.e. the block that
+   execution has just popped.  (Still partial w.r.t. the property: that the exit call behind that
+   POP_BLOCK belongs to the popped with block is the compiler's convention, checked by the runtime
+   ground-truth leg on 3.9 / 3.10.) *)
+Theorem C01_py310_exit_call_resolved : forall c ce lasti a pop st,
+  check_bcert c ce = true ->
+  scan c lasti = ScPop a pop ->
+  breach c (pop, st) ->
+  exists h, exiting310 c lasti = EExit a h /\ last_opt st = Some h.
+Proof. exact exit_call_resolved. Qed.
+Print Assumptions C01_py310_exit_call_resolved.
+Example C01_py310_exit_call_resolved_example :
+  check_bcert P_BlockStack.ex_code P_BlockStack.ex_cert = true /\
+  scan P_BlockStack.ex_code 6 = ScPop false 2 /\ breach P_BlockStack.ex_code (2, [9]).
+Proof. split; [vm_compute; reflexivity|]. split; [vm_compute; reflexivity|]. exact (proj1 C01_py310_reachable_pop_example). Qed.
